@@ -12,10 +12,12 @@
 //	unmsgpack=<...>                   same, through msgpack
 //	codec=<1|0>                       the Go tree read from the msgpack bytes equals the one read from the JSON
 //
-// Case lines: "V <value>" (see value.go), "Q <cps>" (string quoting alone).
+// Case lines: "V <value>" (see value.go), "W <k> <i> <schedule seed> <value>*k" (the i-th value of an
+// interleaved history: stable=<1|0> says whether its encodings kept their bytes), "Q <cps>" (string quoting alone).
 package main
 
 import (
+	"bytes"
 	"encoding/json"
 	"fmt"
 	"math"
@@ -65,6 +67,7 @@ type obs struct {
 	unjson    string
 	unmsgpack string
 	codec     string
+	stable    string // W cases: the bytes of this encoding did not change while later values were encoded/decoded
 }
 
 func (o obs) String() string {
@@ -72,7 +75,7 @@ func (o obs) String() string {
 	if o.jsonOK {
 		j = hexs(o.json)
 	}
-	return "json=" + j + ";std=" + o.std + ";stdv=" + o.stdv + ";unjson=" + o.unjson + ";unmsgpack=" + o.unmsgpack + ";codec=" + o.codec
+	return "json=" + j + ";std=" + o.std + ";stdv=" + o.stdv + ";unjson=" + o.unjson + ";unmsgpack=" + o.unmsgpack + ";codec=" + o.codec + ";stable=" + o.stable
 }
 
 func observedValue(r lib.Result) string {
@@ -92,7 +95,7 @@ func observedValue(r lib.Result) string {
 }
 
 func observe(env *zygo.Zlisp, x zygo.Sexp) obs {
-	o := obs{std: "-", stdv: "-", unjson: "-", unmsgpack: "-", codec: "-"}
+	o := obs{std: "-", stdv: "-", unjson: "-", unmsgpack: "-", codec: "-", stable: "-"}
 	env.AddGlobal("v", x)
 	r := lib.Eval(env, "(json v)", budget)
 	raw, isRaw := r.Val.(*zygo.SexpRaw)
@@ -261,6 +264,9 @@ func failure(v *gv, o obs) string {
 	if !o.jsonOK {
 		return "json:ERR"
 	}
+	if o.stable == "0" {
+		return "encoding-changed"
+	}
 	var sb strings.Builder
 	expectTree(v, &sb)
 	if o.stdv != sb.String() {
@@ -390,6 +396,245 @@ func (r *runner) shrink(v *gv, sig string) {
 	if cur != v {
 		if x, ok := r.build(cur); ok {
 			r.run(cur, x, "shrunk")
+		}
+	}
+}
+
+// ---- interleaved histories: encodings are values -------------------------------------------
+//
+// Several values are encoded (json and msgpack) and decoded in a random interleaving in which
+// each value's encodings precede its decodings; every result stays alive (the SexpRaw objects
+// the builtins returned, bound to globals exactly as (def ma (msgpack a)) would keep them).
+// Observed per value: the bytes of its two encodings at the END of the history (they must
+// still be what they were when they were produced), and the decodings of those very objects.
+
+type histItem struct {
+	v          *gv
+	x          zygo.Sexp
+	j, m       *zygo.SexpRaw
+	snapJ      []byte
+	snapM      []byte
+	unj, unm   lib.Result
+	encOK      bool
+	decJ, decM bool
+}
+
+func (r *runner) observeHistory(vs []*gv, order *lib.Rng) ([]*gv, []obs, bool) {
+	env := r.env
+	items := make([]*histItem, 0, len(vs))
+	for _, v := range vs {
+		x, ok := r.build(v)
+		if !ok {
+			return nil, nil, false
+		}
+		actual, ok := fromSexp(x)
+		if !ok {
+			return nil, nil, false
+		}
+		items = append(items, &histItem{v: actual, x: x})
+	}
+	// events: 2*i = encode item i, 2*i+1 = decode item i; an item is decoded after it was encoded
+	pendingEnc := make([]int, len(items))
+	for i := range pendingEnc {
+		pendingEnc[i] = i
+	}
+	var pendingDec []int
+	for len(pendingEnc)+len(pendingDec) > 0 {
+		doEnc := len(pendingDec) == 0 || (len(pendingEnc) > 0 && order.Intn(3) != 0)
+		if doEnc {
+			k := order.Intn(len(pendingEnc))
+			i := pendingEnc[k]
+			pendingEnc = append(pendingEnc[:k], pendingEnc[k+1:]...)
+			it := items[i]
+			env.AddGlobal("v", it.x)
+			rj := lib.Eval(env, "(json v)", budget)
+			rm := lib.Eval(env, "(msgpack v)", budget)
+			jr, ok1 := rj.Val.(*zygo.SexpRaw)
+			mr, ok2 := rm.Val.(*zygo.SexpRaw)
+			if rj.Class == lib.OutValue && ok1 {
+				it.j = jr
+				it.snapJ = append([]byte(nil), jr.Val...)
+			}
+			if rm.Class == lib.OutValue && ok2 {
+				it.m = mr
+				it.snapM = append([]byte(nil), mr.Val...)
+			}
+			it.encOK = it.j != nil
+			pendingDec = append(pendingDec, i)
+		} else {
+			k := order.Intn(len(pendingDec))
+			i := pendingDec[k]
+			pendingDec = append(pendingDec[:k], pendingDec[k+1:]...)
+			it := items[i]
+			if it.j != nil {
+				env.AddGlobal("j", it.j)
+				it.unj = lib.Eval(env, "(unjson j)", budget)
+				it.decJ = true
+			}
+			if it.m != nil {
+				env.AddGlobal("m", it.m)
+				it.unm = lib.Eval(env, "(unmsgpack m)", budget)
+				it.decM = true
+			}
+		}
+	}
+	// everything is read at the end of the history
+	out := make([]obs, len(items))
+	actuals := make([]*gv, len(items))
+	for i, it := range items {
+		actuals[i] = it.v
+		o := obs{std: "-", stdv: "-", unjson: "-", unmsgpack: "-", codec: "-", stable: "1"}
+		if it.j != nil {
+			o.jsonOK = true
+			o.json = []byte(it.j.Val)
+			o.std, o.stdv = stdTree(o.json)
+			if !bytes.Equal(it.j.Val, it.snapJ) {
+				o.stable = "0"
+			}
+			if it.decJ {
+				o.unjson = observedValue(it.unj)
+			}
+		}
+		if it.m != nil {
+			if !bytes.Equal(it.m.Val, it.snapM) {
+				o.stable = "0"
+			}
+			if it.decM {
+				o.unmsgpack = observedValue(it.unm)
+			}
+			if it.j != nil {
+				o.codec = codecIdentity(o.json, []byte(it.m.Val))
+			}
+		} else if it.j != nil {
+			o.unmsgpack = "CRASH"
+		}
+		out[i] = o
+	}
+	return actuals, out, true
+}
+
+func histInput(vs []*gv, i int, seed uint64) string {
+	var sb strings.Builder
+	fmt.Fprintf(&sb, "W %d %d %d", len(vs), i, seed)
+	for _, v := range vs {
+		sb.WriteByte(' ')
+		v.input(&sb)
+	}
+	return sb.String()
+}
+
+// history runs one interleaved history (schedule derived from seed) and records one case per value;
+// returns the failure signatures per position.
+func (r *runner) history(vs []*gv, seed uint64, record bool, tags ...string) []string {
+	actuals, os, ok := r.observeHistory(vs, lib.NewRng(seed))
+	if !ok {
+		r.out.Dist["rejected-at-construction"]++
+		return nil
+	}
+	sigs := make([]string, len(actuals))
+	for i := range actuals {
+		sigs[i] = failure(actuals[i], os[i])
+	}
+	if record {
+		for i := range actuals {
+			input := histInput(actuals, i, seed)
+			if r.seen[input] {
+				continue
+			}
+			r.seen[input] = true
+			t := append([]string{fmt.Sprintf("history:%d", len(actuals))}, tags...)
+			if sigs[i] != "" {
+				t = append(t, "harness-sees:"+sigs[i])
+			}
+			r.out.Case(input, os[i].String(), true, t...)
+		}
+	}
+	return sigs
+}
+
+// aloneFails: the value fails the property already on its own (then the history is not to blame).
+func (r *runner) aloneFails(v *gv) bool {
+	x, ok := r.build(v)
+	if !ok {
+		return true
+	}
+	a, ok := fromSexp(x)
+	if !ok {
+		return true
+	}
+	return failure(a, observe(r.env, x)) != ""
+}
+
+func anySig(sigs []string) string {
+	for _, s := range sigs {
+		if s != "" {
+			return s
+		}
+	}
+	return ""
+}
+
+// historyCase: run, and when a value fails only in company, reduce the history (fewer values,
+// then smaller values) keeping a failure that no value shows alone.
+func (r *runner) historyCase(vs []*gv, seed uint64) {
+	sigs := r.history(vs, seed, true)
+	if anySig(sigs) == "" || r.fail["history"] >= 4 {
+		return
+	}
+	for _, v := range vs {
+		if r.aloneFails(v) {
+			return
+		}
+	}
+	r.fail["history"]++
+	cur := vs
+	fails := func(c []*gv) bool {
+		for _, v := range c {
+			if knownShape(v) || r.aloneFails(v) {
+				return false
+			}
+		}
+		for s := uint64(0); s < 3; s++ {
+			if anySig(r.history(c, seed+s, false)) != "" {
+				return true
+			}
+		}
+		return false
+	}
+	for round := 0; round < 60; round++ {
+		improved := false
+		for i := 0; i < len(cur) && len(cur) > 2; i++ {
+			c := append(append([]*gv{}, cur[:i]...), cur[i+1:]...)
+			if fails(c) {
+				cur, improved = c, true
+				break
+			}
+		}
+		if improved {
+			continue
+		}
+	outer:
+		for i := range cur {
+			for _, s := range candidates(cur[i]) {
+				if s.size() >= cur[i].size() {
+					continue
+				}
+				c := append([]*gv{}, cur...)
+				c[i] = s
+				if fails(c) {
+					cur, improved = c, true
+					break outer
+				}
+			}
+		}
+		if !improved {
+			break
+		}
+	}
+	for s := uint64(0); s < 3; s++ {
+		if anySig(r.history(cur, seed+s, false)) != "" {
+			r.history(cur, seed+s, true, "shrunk")
+			break
 		}
 	}
 }
@@ -583,6 +828,28 @@ func main() {
 	for k := 0; k < n/20; k++ {
 		r.source(g.literal(3))
 	}
+	// 6. interleaved histories: several encodings alive at once
+	grid := g.scalarGrid()
+	nh := n / 10
+	for k := 0; k < nh; k++ {
+		size := 2 + rng.Intn(3)
+		vs := make([]*gv, 0, size)
+		for i := 0; i < size; i++ {
+			switch rng.Intn(4) {
+			case 0:
+				vs = append(vs, grid[rng.Intn(len(grid))])
+			case 1:
+				vs = append(vs, &gv{kind: 'A', arr: []*gv{grid[rng.Intn(len(grid))]}})
+			default:
+				vs = append(vs, g.value(1+rng.Intn(3), ""))
+			}
+		}
+		if rng.Intn(6) == 0 {
+			vs[len(vs)-1] = vs[0] // the same value twice
+		}
+		r.historyCase(vs, rng.U64())
+	}
+	out.Extra["histories"] = nh
 	out.Extra["max_depth"] = 5
 	out.Close(a.Stats)
 }
@@ -607,6 +874,24 @@ func replay(r *runner, path string) {
 			s, _ = parseCps(toks[1])
 		}
 		r.quote(s, "replay")
+		return
+	}
+	if len(toks) >= 4 && toks[0] == "W" {
+		var k int
+		var seed uint64
+		fmt.Sscanf(toks[1], "%d", &k)
+		fmt.Sscanf(toks[3], "%d", &seed)
+		pos := 4
+		var vs []*gv
+		for i := 0; i < k; i++ {
+			v, err := parseValue(toks, &pos)
+			if err != nil {
+				fmt.Fprintln(os.Stderr, "replay: cannot read the history:", err)
+				os.Exit(2)
+			}
+			vs = append(vs, v)
+		}
+		r.history(vs, seed, true, "replay")
 		return
 	}
 	pos := 1
